@@ -213,8 +213,11 @@ CONTEXTS = [  # list of (criteria [(param, op, literal, calibrated)], calibrator
     ([([("SELF", "<=", "100", False)], 2)], 1),
     ([], 0),
     ([], None),
+    # a context whose calibrator is a spline that does NOT extrapolate and does not cover the raw range: outside it the decode must FAIL (not fall through)
+    ([([("CTX", ">=", "0", True)], 3)], 0),
+    ([([("CTX", "<", "0", True)], 1), ([("CTX", ">=", "0", True)], 3)], None),
 ]
-CALS = [("poly", [(10.0, 0), (1.0, 1)]), ("poly", [(0.0, 0), (-2.0, 1)]), ("spline", [(-4096, -1), (65536, 1)], 1, True)]
+CALS = [("poly", [(10.0, 0), (1.0, 1)]), ("poly", [(0.0, 0), (-2.0, 1)]), ("spline", [(-4096, -1), (65536, 1)], 1, True), ("spline", [(2, 1.0), (20, -3.0)], 1, False)]
 RELS = {"==": lambda a, b: a == b, ">": lambda a, b: a > b, "<": lambda a, b: a < b, ">=": lambda a, b: a >= b, "<=": lambda a, b: a <= b}
 
 
@@ -258,8 +261,6 @@ class ContextH(Base):
         v, exc = run_parse(lambda: pt.parse_value(packet))
         raw = raw_spec(buf, 3, w, enc_name)
         inputs = {"buf" + tag: buf, "w": w, "enc": enc_name, "ctxp" + tag: bv.SymInt(c)}
-        if exc is not None:
-            return "exc:" + exc, [("context calibration raises nothing", False)], {"exc": exc, "cls": "ran"}, inputs
         obl = []
         x = bv.bv2real(raw, w)
 
@@ -267,6 +268,24 @@ class ContextH(Base):
             a = c if p == "CTX" else raw
             return RELS[op](a, z3.BitVecVal(int(lit), bv.W))
         holds = [z3.And([crit_term(p, op, lit) for p, op, lit, _ in crit]) for crit, _ in entries]
+
+        # where the SELECTED calibrator (first context that holds, else the default) is a spline that does not extrapolate and the raw value
+        # lies outside its points, decoding must FAIL - it must not fall through to the next context, the default or the raw value
+        def outside(ci):
+            spec = CALS[ci]
+            if spec[0] != "spline" or spec[3]:
+                return z3.BoolVal(False)
+            return z3.Not(spline_spec(spec[1], spec[2], x)[1])
+        must_fail, earlier = [], z3.BoolVal(True)
+        for h, (_, ci) in zip(holds, entries):
+            must_fail.append(z3.And(earlier, h, outside(ci)))
+            earlier = z3.And(earlier, z3.Not(h))
+        if default is not None:
+            must_fail.append(z3.And(earlier, outside(default)))
+        must_fail = z3.Or(must_fail) if must_fail else z3.BoolVal(False)
+        if exc is not None:
+            return "exc", [(f"context calibration fails ({exc}) only where the selected spline does not cover the raw value", must_fail)], {"exc": "raised", "cls": "ran"}, inputs
+        obl.append(("a value only where the selected calibrator covers the raw value", z3.Not(must_fail)))
         # expected value: first context that holds, else default, else raw
         none = z3.Not(z3.Or(holds)) if holds else z3.BoolVal(True)
         if isinstance(v, bv.SymReal):
@@ -445,7 +464,7 @@ def concrete(req):
                     out.update({f"exc{n}": None, f"value{n}": enc_concrete(float(v) if isinstance(v, float) else int(v)), f"raw{n}": enc_concrete(v.raw_value),
                                 f"class{n}": type(v).__name__})
                 except Exception as e:   # noqa: BLE001
-                    out[f"exc{n}"] = type(e).__name__
+                    out[f"exc{n}"] = "raised"
         return out
     pkt = packets.CCSDSPacket(raw_data=i["buf"])
     pkt.raw_data.pos = 3
@@ -456,7 +475,7 @@ def concrete(req):
         try:
             v = pt.parse_value(pkt)
         except Exception as e:   # noqa: BLE001
-            return {"cls": "ran", "exc": "raised" if req["kind"] in ("spline", "twin", "enumbool") else type(e).__name__, "exc_type": type(e).__name__}
+            return {"cls": "ran", "exc": "raised" if req["kind"] in ("spline", "twin", "enumbool", "context") else type(e).__name__, "exc_type": type(e).__name__}
     if isinstance(v, float):
         val = float(v)
     elif isinstance(v, str):
@@ -553,6 +572,8 @@ def judge(req, got):
             ok = got.get("exc") is None and got.get("class") == "IntParameter" and got.get("value") == r and got.get("raw") == r
             return ("not-reproduced", "agrees") if ok else ("reproduced", f"{desc}: expected raw IntParameter {r}, got {got}")
         want = _cal(CALS[sel], r)
+        if want == "CalibrationError":
+            return ("not-reproduced", "agrees") if got.get("exc") is not None else ("reproduced", f"{desc}: calibrator {sel} (a spline that does not extrapolate) does not cover the raw value: expected a calibration failure, got {got}")
         return ("not-reproduced", "agrees") if num_ok(want) else ("reproduced", f"{desc}: expected calibrator {sel} -> {float(want)}, got {got}")
     if i["which"] < len(ENUMS):
         en = ENUMS[i["which"]]
